@@ -31,7 +31,7 @@ structure Sys where
   queue : List Entry
   t : Rat
   ctr : Nat
-deriving Repr
+deriving Repr, DecidableEq
 
 def init : Sys := { queue := [], t := 0, ctr := 0 }
 
@@ -70,7 +70,7 @@ structure Run where
   status : Status
   s : Sys
   trace : List Event
-deriving Repr
+deriving Repr, DecidableEq
 
 /-- The `while not end` loop of the repaired `evolve_until`: an empty queue, or a head at or
 beyond the horizon, ends the evolution. -/
@@ -92,6 +92,48 @@ def loop (kids : Entry → List (Rat × Nat)) (T : Rat) : Nat → Sys → Run
 
 def evolveUntil (kids : Entry → List (Rat × Nat)) (fuel : Nat) (s : Sys) (T : Rat) : Run :=
   if T < s.t then ⟨.backwards, s, []⟩ else loop kids T fuel s
+
+/-! ### Callbacks that read the clock (`add_callback(self.t + period, ...)`, the docstring idiom)
+
+The clock a callback sees may rest up to `eps` below the callback's own time (coalescing), so what
+a clock-reading callback schedules is not a function of its queue entry alone.  `loopC` is `loop`
+with the clock handed to the callbacks.  It is tied back to `loop` (the object of the theorems of
+Properties/C20.lean) by `fireTable`/`tableKids`: the table of what each executed callback
+scheduled, read as an entry-only `kids` function, replays the very same run
+(`loopC_eq_loop_table`), so every theorem about `loop` holds of `loopC` runs. -/
+
+/-- `loop` with callbacks that see the clock: `kidsC clock e`. -/
+def loopC (kidsC : Rat → Entry → List (Rat × Nat)) (T : Rat) : Nat → Sys → Run
+  | 0, s => ⟨.outOfFuel, s, []⟩
+  | fuel + 1, s =>
+    match s.queue with
+    | e :: rest =>
+      if e.time < T then
+        let a := advance { s with queue := rest } (e.time - s.t)
+        let r := loopC kidsC T fuel (addAll a.1 (kidsC a.1.t e))
+        { r with trace := a.2 ++ Event.fire e a.1.t :: r.trace }
+      else
+        let a := advance s (T - s.t)
+        ⟨.ok, a.1, a.2⟩
+    | [] =>
+      let a := advance s (T - s.t)
+      ⟨.ok, a.1, a.2⟩
+
+def evolveUntilC (kidsC : Rat → Entry → List (Rat × Nat)) (fuel : Nat) (s : Sys) (T : Rat) : Run :=
+  if T < s.t then ⟨.backwards, s, []⟩ else loopC kidsC T fuel s
+
+/-- What each callback executed in a trace scheduled, given the clock it saw. -/
+def fireTable (kidsC : Rat → Entry → List (Rat × Nat)) : List Event → List (Entry × List (Rat × Nat))
+  | [] => []
+  | Event.integrate _ :: tr => fireTable kidsC tr
+  | Event.fire e clk :: tr => (e, kidsC clk e) :: fireTable kidsC tr
+
+/-- A table of executed callbacks read as an entry-only `kids` function (first match; `[]` for
+entries that never ran). -/
+def tableKids (tbl : List (Entry × List (Rat × Nat))) (e : Entry) : List (Rat × Nat) :=
+  match tbl.find? (fun p => p.1 = e) with
+  | some p => p.2
+  | none => []
 
 /-- Sum of the integration intervals of a trace. -/
 def sumDt : List Event → Rat
@@ -142,7 +184,7 @@ structure Hist where
   hz : Rat
   trace : List Event
   created : List Entry
-deriving Repr
+deriving Repr, DecidableEq
 
 def hinit : Hist := { s := init, hz := 0, trace := [], created := [] }
 
